@@ -67,6 +67,19 @@ def run(ctx):
             if "executed site" in a:
                 diffs.append((l, a))
     nsites = sum(l.count(".") // 2 for l in lines)
+    # (d) the caller contract of get_unchecked on real Nucleo histories (writers paused between reserving and publishing, runs
+    # cancelled mid-pass): every index the worker hands to get_unchecked must already have reached its publishing store
+    contract = []
+    hist_lines = []
+    if hb_ok and st["driver_ok"]:
+        from .. import nucleo_common
+        hist_lines, _c2, f2 = core.run_jobs(nucleo_common.jobs(ctx), ctx.seed)
+        failures = failures + f2
+        for l, a in zip(hist_lines, core.run_driver(hist_lines)):
+            for part in a.split(" ## "):
+                if part.startswith("ORACLE C09 "):
+                    contract.append((l, part))
+    ctx.coverage["nucleo_histories"] = len(hist_lines)
     # (c) Miri
     miri = []
     need_miri = ctx.tier == "thorough" or not st["ok"]
@@ -76,9 +89,11 @@ def run(ctx):
         miri = run_miri(ctx, seeds)
         ctx.coverage["miri_wall_s"] = round(time.time() - t0, 1)
     ctx.coverage.update(
-        evaluations=len(lines) + len(miri), distinct_nontrivial=len(set(lines)),
+        evaluations=len(lines) + len(miri) + len(hist_lines), distinct_nontrivial=len(set(lines)) + len(set(hist_lines)),
         rule="certificates: every atomic operation of src/boxcar.rs is classified (role or reservation counter) and every role has the ordering its happens-before "
-             "chain needs; skeleton: seeded schedules of 2-4 real threads at the yield points, every executed site must be the one the model predicts; Miri "
+             "chain needs; skeleton: seeded schedules of 2-4 real threads at the yield points, every executed site must be the one the model predicts; caller contract "
+             "of get_unchecked: on the Nucleo histories of C06 (paused writers, runs cancelled mid-pass, restarts) every index the worker hands to get_unchecked has "
+             "reached its publishing store; Miri "
              "(thorough tier, or when a certificate breaks): litmus_get (eager bucket allocation vs. polling lookup), litmus_tick (injector thread vs. tick/"
              "snapshot reads vs. 2 pool threads), litmus_restart (old injector pushing across a restart) x seeds",
         samples=[l[:300] for l in lines[:2]] + [dict(program=m["program"], seed=m["seed"], ok=m["ok"]) for m in miri[:3]],
@@ -89,7 +104,12 @@ def run(ctx):
                         "Miri runs with Stacked Borrows disabled (crossbeam-epoch trips it) and leak checking off (rayon's global registry)"]
     races = [m for m in miri if m["race"] or (m["ub"] and not m["race"])]
     bad_litmus = [m for m in miri if not m["race"] and not m["ok"] and not m["ub"]]
-    if races:
+    if contract:
+        from .. import nucleo_common
+        l, part = contract[0]
+        core.violation(ctx, part[:400], dict(kind="oracle-on-implementation", clause=part, case=nucleo_common.describe(l), harness_line=l[:6000],
+                                              replay_cmd="./check C09 --replay <this file>", proof=st["detail"][-600:]))
+    elif races:
         m = races[0]
         core.violation(ctx, f"Miri: {m['race'] or m['ub']} in {m['program']} (seed {m['seed']})",
                        dict(kind="miri-data-race", program=m["program"], seed=m["seed"], report=m["race"] or m["ub"], where=m["where"], tail=m["tail"],
